@@ -1,0 +1,41 @@
+//go:build verif
+
+package maurl
+
+// Contracts for the deductive checks in /verif (comment-only; no code).
+// Property C20 (URL half): scheme table of ToURL, component structure of FromURL.
+// The agreement of url.PathEscape with go-multiaddr's http-path transcoder is a
+// fact about two dependencies and is NOT decided here (bounded stand-in only).
+
+// From the property: https, or http together with tls, map to https; http alone
+// to http; likewise wss / ws(+tls). pm is the map protocol code -> value.
+//@ spec func schemeOf(https bool, http bool, tls bool, wss bool, ws bool) int = ite(https, str("https"), ite(http, ite(tls, str("https"), str("http")), ite(wss, str("wss"), ite(ws, ite(tls, str("wss"), str("ws")), str("http")))))
+
+//@ func ToURL
+//@   property C20
+//@   ghost unesc := ""
+//@   ghost unescErr := true
+//@   at call PathUnescape#1: after ghost unesc := result0
+//@   at call PathUnescape#1: after ghost unescErr := result1 != nil
+//@   loop 1: invariant pm != nil && isfresh(pm)
+//@   ensures-local result1 == nil ==> result0 != nil
+//@   ensures-local result1 == nil ==> str(result0.Scheme) == schemeOf(has(pm, multiaddr.P_HTTPS), has(pm, multiaddr.P_HTTP), has(pm, multiaddr.P_TLS), has(pm, multiaddr.P_WSS), has(pm, multiaddr.P_WS))
+//@   ensures-local result1 == nil && !has(pm, multiaddr.P_HTTP_PATH) && !has(pm, oldProtoHTTPath.Code) ==> str(result0.Path) == str("")
+//@   ensures-local result1 == nil && (has(pm, multiaddr.P_HTTP_PATH) || has(pm, oldProtoHTTPath.Code)) ==> str(result0.Path) == ite(unescErr, str(""), str(unesc))
+//@   ensures-local result1 == nil && has(pm, multiaddr.P_HTTP_PATH) ==> count("call:PathUnescape") == 1
+
+// FromURL: host component, then tcp(port) iff a port is given, then the scheme
+// component, then http-path(PathEscape(path)) iff the path is non-empty.
+//@ func FromURL
+//@   property C20
+//@   requires u != nil
+//@   ghost port := ""
+//@   at call Port#1: after ghost port := result
+//@   ensures-local result1 == nil && str(port) != str("") && str(u.Path) != str("") ==> count("call:Join") == 3 && count("call:PathEscape") == 1
+//@   ensures-local result1 == nil && str(port) != str("") && str(u.Path) == str("") ==> count("call:Join") == 2 && count("call:PathEscape") == 0
+//@   ensures-local result1 == nil && str(port) == str("") && str(u.Path) != str("") ==> count("call:Join") == 2 && count("call:PathEscape") == 1
+//@   ensures-local result1 == nil && str(port) == str("") && str(u.Path) == str("") ==> count("call:Join") == 1 && count("call:PathEscape") == 0
+//@   at call PathEscape#1: assert arg0 == u.Path
+
+//@ func pathVal
+//@   property C20
